@@ -43,7 +43,7 @@ COMPONENTS = {
     "stub_or_harness": ["FaultyReader/FaultyWriter proxies", "frame wrappers", "reference interpreter (expected mode per operation)", "spec/value/fault generators"],
 }
 FAULT_KINDS = ["writer_exception", "writer_cancel", "reader_exception", "reader_cancel", "invalid_object", "hostile_bytes_error"]
-PROBES = ["fault_at_first_call", "fault_at_last_call", "fault_in_nested_frame", "fault_three_frames_deep",
+PROBES = ["packet_write_method", "fault_at_first_call", "fault_at_last_call", "fault_in_nested_frame", "fault_three_frames_deep",
           "entry_mode_true_on_class_with_chunked", "fault_on_add_byte", "fault_on_next_chunk", "unaligned", "aligned",
           "serialize_failed_value_skipped", "nested_frames_checked"]
 
@@ -111,7 +111,14 @@ class Runner:
         if direction == "serialize":
             proxy = te.FaultyWriter(fault_at, exc, cap=400_000)
             proxy.string_sanitization_mode = entry
-            fn = lambda: cls.serialize(proxy, payload)          # noqa
+            # packets are also written through their generated write() method (every other fault index, and the
+            # fault-free run that starts in sanitising mode)
+            via_write = hasattr(payload, "write") and (fault_at % 2 == 1 if fault_at is not None else bool(entry))
+            if via_write:
+                self.res.count("probe.packet_write_method")
+                fn = lambda: payload.write(proxy)                   # noqa
+            else:
+                fn = lambda: cls.serialize(proxy, payload)          # noqa
             mode = lambda: bool(proxy.string_sanitization_mode)  # noqa
         else:
             proxy = te.FaultyReader(payload, fault_at, exc, cap=400_000)
